@@ -20,12 +20,16 @@ package p2p
 //@   property C20
 //@   ensures compares_with_header: result == (crcOf(str(mInfo(msg))) == mSum(msg))
 
-// Compress: a non-empty, not yet compressed payload is replaced by its snappy
-// encoding and flagged; anything else is left alone.
+// Compress: whatever it decides to do with a not yet compressed payload (which
+// sizes are worth compressing is a policy, not part of the property), the envelope
+// afterwards still carries that payload: flag and bytes agree and the flagged bytes
+// decode. An envelope that is already flagged is left alone (it would otherwise be
+// encoded twice and decoded once).
 //@ func Compress
 //@   property C20
-//@   ensures compresses_nonempty: len(old(mInfo(msg))) > 0 && !old(mCompressed(msg)) ==> msg.Data.MsgInfo == snappyEnc(old(msg.Data.MsgInfo)) && len(msg.Data.MsgInfo) > 0 && msg.Header.EnableCompress
-//@   ensures leaves_rest_alone: !(len(old(mInfo(msg))) > 0 && !old(mCompressed(msg))) ==> mInfo(msg) == old(mInfo(msg)) && mCompressed(msg) == old(mCompressed(msg))
+//@   uses snappyRoundTrip
+//@   ensures payload_preserved: !old(mCompressed(msg)) ==> (mCompressed(msg) ==> snappyDecOK(mInfo(msg))) && str(mPayload(msg)) == str(old(mInfo(msg)))
+//@   ensures compressed_left_alone: old(mCompressed(msg)) ==> mInfo(msg) == old(mInfo(msg)) && mCompressed(msg)
 
 // Decompress returns the payload of the envelope (absent payload of an uncompressed message included).
 //@ func Decompress
@@ -42,15 +46,16 @@ package p2p
 //@   ensures checksum_error_only_on_mismatch: result == ErrMessageChecksum ==> crcOf(str(mInfo(msg))) != mSum(msg)
 //@   ensures decompress_error_only_on_bad_payload: result == ErrMessageDecompress ==> msg == nil || msg.Header == nil || msg.Data == nil || (mCompressed(msg) && !snappyDecOK(mInfo(msg)))
 
-// NewMessage: the checksum is taken over the final (compressed) payload bytes;
-// without options, a non-empty encoding is sent snappy-compressed and flagged, an
-// empty one uncompressed.
+// NewMessage: the checksum is taken over the final (possibly compressed) payload
+// bytes; without options the envelope carries exactly the encoding of the message
+// (the empty payload for a nil message): flag and bytes agree and flagged bytes decode.
 //@ func NewMessage
 //@   property C20
+//@   uses snappyRoundTrip
 //@   ensures checksum_over_final_payload: result != nil && result.Header != nil && mSum(result) == crcOf(str(mInfo(result)))
-//@   ensures flag_iff_nonempty: len(opts) == 0 ==> mCompressed(result) == (len(mInfo(result)) > 0)
-//@   ensures nil_message_empty_payload: len(opts) == 0 && message == nil ==> mInfo(result) == nil && !mCompressed(result)
-//@   loop 1 invariant no_options_no_change: len(opts) == 0 ==> msg.Header != nil && msg.Data != nil && !msg.Header.EnableCompress && (message == nil ==> msg.Data.MsgInfo == nil)
+//@   ensures payload_round_trip: len(opts) == 0 && message != nil ==> (mCompressed(result) ==> snappyDecOK(mInfo(result))) && str(mPayload(result)) == str(pbEnc(message))
+//@   ensures nil_message_empty_payload: len(opts) == 0 && message == nil ==> (mCompressed(result) ==> snappyDecOK(mInfo(result))) && len(str(mPayload(result))) == 0
+//@   loop 1 invariant no_options_no_change: len(opts) == 0 ==> msg.Header != nil && msg.Data != nil && !msg.Header.EnableCompress && (message == nil ==> msg.Data.MsgInfo == nil) && (message != nil ==> str(msg.Data.MsgInfo) == str(pbEnc(message)))
 //@   loop 1 invariant msg_alive: msg != nil
 
 // Round trip over the envelope: what Decompress returns for an envelope built by
